@@ -61,6 +61,13 @@ pub struct Profile {
     /// with histories: probability that problem 2 lives in its own, tighter space object
     /// (`PlanCase::space2`); `set_problem_definition` is then replaced by `setup`
     pub p_space2: f64,
+    /// probability of a second goal target a little *outside* the bounds of a box coordinate, in
+    /// a world whose checker rejects everything beyond that bound (the goal region sticks out of
+    /// the space; its outer target is an invalid goal sample)
+    pub p_outside_target: f64,
+    /// probability of planning on the library's own space object instead of the recording
+    /// wrapper (`PlanCase::raw_space`); only for oracles that do not need the sample log
+    pub p_raw_space: f64,
 }
 impl Default for Profile {
     fn default() -> Self {
@@ -87,6 +94,8 @@ impl Default for Profile {
             p_odd_start: 0.06,
             p_retune: 0.0,
             p_space2: 0.0,
+            p_outside_target: 0.05,
+            p_raw_space: 0.0,
         }
     }
 }
@@ -359,19 +368,20 @@ pub fn gen_plan_case(ch: &mut Ch, prof: &Profile) -> PlanCase {
             }
         }
     }
-    if prof.bounds != BoundsMode::Bounded && ch.prob(prof.p_odd_start) {
-        // (not for the C04 profile, whose premise is a start inside the bounds)
+    if ch.prob(prof.p_odd_start) {
+        // (the C04 profile, whose premise is a start inside the bounds, gets the other
+        // representations of an in-bounds rotation only, never a point outside a box)
         let offs = space.offsets();
         let i = ch.below(space.comps.len());
         let o = offs[i];
         match &space.comps[i] {
-            Comp::RV { bounds: Some(b), .. } => {
+            Comp::RV { bounds: Some(b), .. } if prof.bounds != BoundsMode::Bounded => {
                 let k = ch.below(b.len());
                 let (lo, hi) = b[k];
                 start[o + k] = if ch.prob(0.5) { hi + 0.05 * (hi - lo) } else { lo - 0.05 * (hi - lo) };
             }
             Comp::SO2 { .. } => {
-                start[o] += 2.0 * std::f64::consts::PI * ch.pick(&[1.0, -1.0, 2.0]);
+                start[o] += 2.0 * std::f64::consts::PI * ch.pick(&[1.0, -1.0, 2.0, -2.0, 3.0]);
             }
             Comp::SO3 { .. } => {
                 for k in 0..4 {
@@ -458,6 +468,36 @@ pub fn gen_plan_case(ch: &mut Ch, prof: &Profile) -> PlanCase {
             }
         }
     }
+    if ch.prob(prof.p_outside_target) {
+        let offs = space.offsets();
+        let rvs: Vec<usize> = (0..space.comps.len())
+            .filter(|i| matches!(&space.comps[*i], Comp::RV { bounds: Some(_), .. }) && space.weights[*i] > 0.0)
+            .collect();
+        if !rvs.is_empty() {
+            let ci = rvs[ch.below(rvs.len())];
+            if let Comp::RV { bounds: Some(b), .. } = &space.comps[ci] {
+                let k = ch.below(b.len());
+                let (lo, hi) = b[k];
+                let idx = offs[ci] + k;
+                let out_by = ch.range(0.05, 0.6) * goal.radius / space.weights[ci];
+                let mut t2 = goal.targets[0].clone();
+                let far = 10.0 * (hi - lo);
+                let wall = if ch.prob(0.5) {
+                    t2[idx] = hi + out_by;
+                    Obst::Wall { idx, lo: hi + 1e-9 * (hi - lo), hi: hi + far, door: None }
+                } else {
+                    t2[idx] = lo - out_by;
+                    Obst::Wall { idx, lo: lo - far, hi: lo - 1e-9 * (hi - lo), door: None }
+                };
+                // the in-bounds target moves to the bound so that the two are one goal region
+                goal.targets[0][idx] = if t2[idx] > hi { hi } else { lo };
+                if !wall.hits(&space, &start) && !world.obst.iter().any(|o| o.hits(&space, &goal.targets[0])) {
+                    goal.targets.push(t2);
+                    world.obst.push(wall);
+                }
+            }
+        }
+    }
     let start_mode = if ch.prob(prof.p_marginal_start) {
         StartMode::Marginal
     } else {
@@ -493,6 +533,17 @@ pub fn gen_plan_case(ch: &mut Ch, prof: &Profile) -> PlanCase {
         let s2 = gen_state_in(ch, sp2);
         let g2 = gen_goal(ch, sp2, extent, prof.rng_goal);
         world.obst.retain(|o| !o.hits(&space, &s2));
+        if ch.prob(prof.p_marginal_start) {
+            // the second problem's start marginally inside an obstacle (depth < 0.1 L), unless
+            // that obstacle would also cover the first problem's start
+            let r = ch.range(0.5, 3.0) * lvs;
+            let depth = ch.range(0.001, 0.099) * lvs;
+            let c = point_at(ch, &space, &s2, (r - depth).max(0.0));
+            let o = Obst::Ball { c, r };
+            if !o.hits(&space, &problems[0].start) {
+                world.obst.push(o);
+            }
+        }
         problems.push(Problem {
             start: s2,
             goal: g2,
@@ -582,6 +633,8 @@ pub fn gen_plan_case(ch: &mut Ch, prof: &Profile) -> PlanCase {
         query_cap: 400_000,
         world2,
         space2,
+        fault_persists: false,
+        raw_space: ch.prob(prof.p_raw_space),
     }
 }
 
